@@ -93,7 +93,7 @@ var c13Malformations = []string{
 	"comp-as-octet", "pcesvn-as-octet", "ppid-as-int", "fmspc-as-int", "cpusvn-as-int", "tcb-as-octet",
 	"ppid-wrong-type-right-length", "pceid-wrong-type-right-length", "fmspc-wrong-type-right-length", "cpusvn-wrong-type-right-length",
 	"comp-as-other-type", "comp-as-other-type", "pcesvn-as-other-type", "octet-field-wrapped-wrong-size", "octet-field-wrapped-wrong-size",
-	"tcb-17", "tcb-19", "trailing-top", "trailing-inner", "trailing-tcb", "truncated", "no-sgx-ext", "ext-5", "ext-7", "top-3-elements", "top-not-sequence",
+	"tcb-17", "tcb-19", "member-third-element", "member-third-element", "tcb-element-third-value", "tcb-list-trailing", "trailing-top", "trailing-inner", "trailing-tcb", "truncated", "no-sgx-ext", "ext-5", "ext-7", "top-3-elements", "top-not-sequence",
 }
 
 // c13Oddities are encodings the property does not classify (an element is replaced by one with an
@@ -288,6 +288,18 @@ func c13Mutate(t *rapid.T, kind string, top *gen.Node, s *gen.Stream) (der []byt
 		tcb.Kids = append(append([]*gen.Node{}, tcb.Kids[:i]...), tcb.Kids[i+1:]...)
 	case "tcb-19":
 		tcb.Kids = append(tcb.Kids, tcb.Kids[rapid.IntRange(0, 17).Draw(t, "dup")].Clone())
+	case "member-third-element":
+		// a further well-formed DER value inside a member, after its value (lengths stay consistent): a member is a pair
+		k := rapid.SampledFrom([]int{1, 1, 1, 0, 2, 3}).Draw(t, "member")
+		extra := []*gen.Node{gen.IntMin(5), gen.Octet(oct(3)), gen.Octet(nil), tcb.Clone(), gen.Seq()}[rapid.IntRange(0, 4).Draw(t, "extra")]
+		top.Kids[k].Kids = append(top.Kids[k].Kids, extra)
+	case "tcb-element-third-value":
+		// an element of the TCB list with a further value behind its own (e.g. a second, contradicting integer)
+		k := rapid.IntRange(0, 17).Draw(t, "element")
+		extra := []*gen.Node{gen.IntMin(7), gen.Octet(oct(16)), gen.Seq(), tcb.Kids[k].Kids[1].Clone()}[rapid.IntRange(0, 3).Draw(t, "extra")]
+		tcb.Kids[k].Kids = append(tcb.Kids[k].Kids, extra)
+	case "tcb-list-trailing":
+		tcb.Trailing = []byte{0x00}
 	case "trailing-top":
 		top.Trailing = []byte{0x00}
 	case "trailing-inner":
